@@ -29,10 +29,12 @@ type Doc struct {
 	D      *document.Document
 	Paras  []*document.Paragraph // handles returned by append operations
 	Tables []*document.Table
-	Images []*document.ImageInfo
-	Saves  int
-	Last   []byte // bytes of the most recent save
-	Dead   bool   // a previous op on this document panicked or restart failed
+	// Detached holds tables made with CreateTable that are not in the body yet
+	Detached []*document.Table
+	Images   []*document.ImageInfo
+	Saves    int
+	Last     []byte // bytes of the most recent save
+	Dead     bool   // a previous op on this document panicked or restart failed
 	// Foreign is set when the document was opened from a package written by
 	// the foreign producer (Base = those bytes).
 	Foreign *foreign.Result
